@@ -339,9 +339,51 @@ def penalty_specs() -> list[dict]:
     return out
 
 
+def tiny_specs() -> list[dict]:
+    """Degenerate but legal sizes: populations of 1-3 (a (1+1)-ES as a sprouted deme, as many elites as individuals),
+    one dimension, level limit 1, three and more generations per metaepoch."""
+    out = []
+    n = 0
+    for pop, elites in ((1, 1), (2, 1), (2, 2), (3, 3), (3, 1)):
+        for maximize in (False, True):
+            for variant in ("SEA", "SEAX"):
+                n += 1
+                child = {"engine": variant, "pop": pop, "gens": 3, "k_elites": elites, "lsc": {"kind": "MetaepochLimit", "n": 3}}
+                if variant == "SEAX":
+                    child["p_crossover"] = 0.7
+                out.append({"name": f"tiny{n}", "seed": 1100 + n, "dim": [1, 2, 3][n % 3], "box": ["sym", "asym", "unit"][n % 3],
+                            "fn": ["multi", "plateau", "sphere", "offset"][n % 4], "maximize": maximize,
+                            "gsc": {"kind": "MetaepochLimit", "n": 6},
+                            "levels": [{"engine": "SEA", "pop": 6, "gens": 1, "lsc": {"kind": "MetaepochLimit", "n": 3 + n % 3}}, child],
+                            "sprout": {"kind": "simple", "far": 0.01, "limit": 1 + n % 2}, "hibernation": n % 4 == 1})
+    for pop, elites in ((1, 1), (2, 2), (3, 2)):
+        for maximize in (False, True):
+            n += 1
+            out.append({"name": f"tiny{n}", "seed": 1100 + n, "dim": 1 + n % 2, "box": "sym", "fn": "multi", "maximize": maximize,
+                        "gsc": {"kind": "MetaepochLimit", "n": 5},
+                        "levels": [{"engine": "SEA", "pop": pop, "gens": 3, "k_elites": elites}], "sprout": {"kind": "simple", "far": 0.01, "limit": 1}})
+    return out
+
+
+def partial_specs() -> list[dict]:
+    """An objective that is NaN on part of the box (legal: pyhms orders NaN behind every number): demes hold individuals
+    "without a value", also while they sleep or after they stopped."""
+    out = []
+    n = 0
+    for root in ({"engine": "SEA", "pop": 10, "gens": 1}, {"engine": "DE", "pop": 10, "gens": 1}, {"engine": "SOBOL", "pop": 12}):
+        for sprout in ({"kind": "simple", "far": 0.05, "limit": 2}, {"kind": "nbc", "gen": 1.0, "trunc": 1.0, "fil": 0.5, "limit": 2}):
+            for hib in (True, False):
+                n += 1
+                out.append({"name": f"part{n}", "seed": 1200 + n, "dim": 2, "box": ["sym", "unit"][n % 2], "fn": "partial",
+                            "maximize": n % 3 == 0, "gsc": {"kind": "MetaepochLimit", "n": 6}, "hibernation": hib,
+                            "levels": [dict(root), {"engine": ["SEA", "DE"][n % 2], "pop": 5, "gens": 1, "lsc": {"kind": "MetaepochLimit", "n": 2}}],
+                            "sprout": dict(sprout), "reports": n % 2 == 0, "idlecheck": False})
+    return out
+
+
 def gen_specs(seed: int, n_random: int, tier: str = "quick") -> list[dict]:
     r = random.Random(seed)
-    specs = repo_test_specs() + sweep_specs(tier) + lifecycle_specs() + engine_specs() + init_specs() + manual_specs() + penalty_specs()
+    specs = repo_test_specs() + sweep_specs(tier) + lifecycle_specs() + engine_specs() + init_specs() + manual_specs() + penalty_specs() + tiny_specs() + partial_specs()
     for i in range(n_random):
         specs.append(random_spec(r, i))
     return specs
